@@ -76,7 +76,7 @@ func (w *wl) par(f func(id int, rng *rand.Rand)) {
 	go func() { wg.Wait(); close(done) }()
 	select {
 	case <-done:
-	case <-time.After(time.Until(w.deadline) + 20*time.Second):
+	case <-time.After(time.Until(w.deadline) + 45*time.Second):
 		fmt.Println("WORKLOAD-TIMEOUT")
 	}
 }
@@ -121,15 +121,15 @@ func drain[T any](ctx context.Context, ch <-chan T, max int, read func(T)) {
 }
 
 var scenarios = []scenario{
-	{"value", 2, []string{"resource.Value.", "resource.config.", "minibus."}, wlValue},
-	{"collection", 2, []string{"resource.Collection.", "resource.config.idInterceptor", "resource.config.clock", "resource.config.equivalence", "minibus."}, wlCollection},
+	{"value", 2, []string{"resource.Value.", "resource.config.", "minibus.", "bus-shared:resource.ValueChange", "local:resource.", "local:minibus."}, wlValue},
+	{"collection", 2, []string{"bus-shared:resource.", "local:resource.", "local:minibus.", "resource.Collection.", "resource.config.idInterceptor", "resource.config.clock", "resource.config.equivalence", "minibus."}, wlCollection},
 	{"collection-genid", 3, []string{"resource.Collection.", "resource.config."}, wlGenID},
 	{"bus", 2, []string{"minibus."}, wlBus},
 	{"router", 20, []string{"router."}, wlRouter},
 	{"wrap-unary", 2, []string{"wrap.", "resource.Value.", "minibus."}, wlWrapUnary},
 	{"wrap-stream", 1, []string{"wrap.", "resource.Value.", "minibus."}, wlWrapStream},
 	{"stream-bidi", 3, []string{"wrap."}, wlStreamBidi},
-	{"group", 3, []string{"resource.Value.", "minibus."}, wlGroup},
+	{"group", 3, []string{"local:group.", "resource.Value.", "minibus."}, wlGroup},
 	{"electric", 2, []string{"electricpb.", "resource.", "minibus."}, wlElectric},
 	{"parent", 1, []string{"parentpb.", "resource.", "minibus."}, wlParent},
 	{"metadata", 1, []string{"metadatapb.", "resource.", "minibus."}, wlMetadata},
